@@ -50,7 +50,7 @@ Lemma kinds_bR q : map kindof (bR q) = repeat RRestart (length (bR q)).
 Proof. unfold bR. induction (mr_accessing q); cbn; congruence. Qed.
 Lemma kinds_bM n q : map kindof (bM n q) = repeat RMig (length (bM n q)).
 Proof.
-  unfold bM. induction (groups_of n q) as [|gp l IH]; cbn [flat_map]; [reflexivity|].
+  unfold bM, mig_of. induction (ordered_groups n q) as [|gp l IH]; cbn [flat_map]; [reflexivity|].
   rewrite map_app, app_length, repeat_app, IH. f_equal.
   induction (snd gp); cbn; congruence.
 Qed.
